@@ -219,7 +219,7 @@ func Setup(cfg Config) *World {
 	c.StabFee = Frac{0, 1}
 	c.CloseFee = Frac{0, 1}
 	c.Floor = 2
-	c.Ceiling = 100000
+	c.Ceiling = 3000 * cfg.DecS // low enough that stable-mint deposits reach it (the ceiling check is in debt units, the request in collateral units)
 	w.Prods = append(w.Prods, w.addProduct("USDCPSM", p3, c))
 	// a second product on the same collateral denom as the first (custody is per denom, totals per product)
 	d := base
